@@ -116,6 +116,22 @@ def spell(toks, decorated=True):
     return "".join(out)
 
 
+def safe(s):
+    """the harness's safeStr on a latin-1 text (bytes as characters)"""
+    return "".join("\\\\" if c == "\\" else ("\\x%02x" % ord(c) if (ord(c) < 0x20 and c != "\n") or ord(c) > 0x7e else c) for c in s)
+
+
+def gen_comments(toks):
+    """the comment texts the generator put into the text (as the lexer documents them: without the
+    trailing spaces), in order"""
+    out = []
+    for k in toks:
+        for it in k.get("pre") or []:
+            if it != "B":
+                out.append(safe(TEXTS[int(it[1:])].rstrip(" ")))
+    return out
+
+
 def validate(ctx, items, which=None):
     which = which or WHICH
     cases = []
@@ -145,6 +161,8 @@ def validate(ctx, items, which=None):
                    outs={x["cfg"]: dict(code=x["code"], nerr=x["nerr"], tree=x["tree"], code2=x["code2"] or [], otoks=slim(x["otoks"])) for x in o["outs"]},
                    traced={x["cfg"]: dict(wcfg(x["cfg"]), ops=model_ops(x["ops"])) for x in o["outs"] if x.get("ops")},
                    mouts={n: it["mouts"][i] for i, n in enumerate(MODEL)} if it.get("mouts") else {})
+        if it.get("gcomments") is not None:
+            rec["gcomments"] = it["gcomments"]
         pr = res.get(it["id"] + "|plain")
         if pr and "obs" in pr and pr["obs"]["snerr"] == 0:
             po = {x["cfg"]: x for x in pr["obs"]["outs"]}
@@ -195,7 +213,8 @@ def build_items(ctx, quick):
         seen.add(text)
         plain = spell(e["toks"], decorated=False)
         items.append(dict(id="m%d" % n, text=text, plain=plain, mouts=e.get("mouts") or None,
-                          decorated=any(k.get("pre") for k in e["toks"]), inner=bool(e.get("inner"))))
+                          decorated=any(k.get("pre") for k in e["toks"]), inner=bool(e.get("inner")),
+                          gcomments=None if e.get("inner") else gen_comments(e["toks"])))
     und = [i for i in items if not i["decorated"]]
     dec = [i for i in items if i["decorated"] and not i["inner"]]
     inner = [i for i in items if i["inner"]]
@@ -225,6 +244,11 @@ def build_items(ctx, quick):
             plain = "\n".join(lines + lines[:55])
             txt = "\n".join("// c%d\n\n%s" % (k, ln) if ln.strip() else ln for k, ln in enumerate(plain.split("\n")))
             huge.append(dict(id=s["id"] + ":x185:trivia", text=txt, plain=plain, mouts=None, decorated=True))
+    # comments without text (`//` alone on a line, as in banner comments): see known_findings.json
+    empties = [dict(id="empty:%d" % n, text=t, plain=None, mouts=None, decorated=True, inner=False, gcomments=g)
+               for n, (t, g) in enumerate([("a\n//\nb", [""]), ("//\n// x\n//\nlet y = 1\n", ["", " x", ""]),
+                                           ("function f() {\n  a //\n}", [""])])]
+    und = und + empties
     return huge[:1] + und + fixture_items() + big + dec[:cap] + inner[:icap], len(und) + len(huge[:1]), len(dec) + len(inner)
 
 
@@ -249,8 +273,12 @@ def run(ctx, which=None):
             continue    # enough attempts to reproduce this clause
         again = validate(ctx, [dict(it, id="re")], which)
         if again and again[0][1] == clause:
-            done[clause] = done.get(clause, 0) + 1
-            ctx.violation(dict(input=list(it["text"].encode("latin-1")), text=it["text"], plain=it.get("plain")), clause, detail)
+            before = len(ctx.violations)
+            ctx.violation(dict(input=list(it["text"].encode("latin-1")), text=it["text"], plain=it.get("plain"), gcomments=it.get("gcomments")), clause, detail)
+            if len(ctx.violations) > before:      # a listed known finding does not use up the budget of its clause
+                done[clause] = done.get(clause, 0) + 1
+            else:
+                tries[clause] -= 1
         else:
             ctx.notes.append("unreproduced failure on %r" % it["text"])
     if which == "C06":
@@ -268,7 +296,7 @@ def run(ctx, which=None):
 def replay(ctx, v, which=None):
     which = which or WHICH
     c = v["case"]
-    f = validate(ctx, [dict(id="replay", text=c["text"], plain=c.get("plain"))], which)
+    f = validate(ctx, [dict(id="replay", text=c["text"], plain=c.get("plain"), gcomments=c.get("gcomments"))], which)
     print("replay %s:" % which, [x[1] for x in f])
     if f:
         print("VIOLATION property=%s replay=(same input)" % which)
